@@ -886,6 +886,10 @@ def gen_history(rng, length):
     if rng.random() < 0.5:
         k = rng.randrange(len(tail) + 1)
         tail = tail[:k] + enabler_attack(rng, w, rng.choice(w.mut_si), rng.randrange(2, 5)) + tail[k:]
+    for _ in range(rng.choice([0, 0, 1, 2]) if tail else 0):
+        # an upload times out / its client disconnects somewhere in the history
+        k = rng.randrange(len(tail) + 1)
+        tail.insert(k, expire_step(rng.choice(w.imm_si), rng.randrange(3), rng.choice(["timeout", "disconnect"])))
     if length > 0 and rng.random() < 0.3:
         # the shares change hands: copied to another server, or the node's identity regenerated in place
         mig = [migrate_step(w, rng, rng.random() < 0.6)]
@@ -1150,6 +1154,32 @@ def run_history(ctx, hist_id, w_swissnum, reqs, monitor_world=None):
         after_abs = stack.abstract()
         for i, req in enumerate(reqs):
             before_raw, before_abs = after_raw, after_abs
+            if req["route"] == "@expire":
+                # the upload's own timeout fires (the callback the reactor would call 30 minutes after the last write), or
+                # its client disconnects: BucketWriter._abort_due_to_timeout / BucketWriter.disconnected
+                key = (req["si"], req["n"])
+                for (si_s, n_, bw, _sec) in stack.open_uploads():
+                    if (si_s, n_) == key:
+                        if req["how"] == "timeout":
+                            dc = bw._timeout
+                            dc.func(*dc.args, **dc.kw)
+                        else:
+                            bw.disconnected()
+                after_raw, after_abs = stack.raw_snapshot(), stack.abstract()
+                outs.append("ctl")
+                toks.append("@expire:%s:%d" % key)
+                ctx.count("expire:" + req["how"] + (":hit" if key in before_raw[1] else ":none"))
+                sub_ = {"kind": "hist", "swissnum": case["swissnum"], "reqs": reqs[:i + 1]}
+                # statement-level: only that upload goes away; every other upload and every stored share is untouched
+                others_b = {k_: v_ for k_, v_ in before_raw[1].items() if k_ != key}
+                others_a = {k_: v_ for k_, v_ in after_raw[1].items() if k_ != key}
+                gone = "/%s/%d" % key
+                fb = {p_: c_ for p_, c_ in before_raw[0].items() if c_ is not None and not (p_.endswith(gone) and "/incoming/" in p_)}
+                fa = {p_: c_ for p_, c_ in after_raw[0].items() if c_ is not None}
+                if key in after_raw[1] or others_b != others_a or fb != fa:
+                    ctx.violation("the timeout / disconnect of one upload left it in place or changed something else", sub_,
+                                  "expire-wrong-effect:" + req["how"])
+                continue
             if req["route"] == "@migrate":
                 stack = stack.migrated(bytes.fromhex(req["swissnum"]), bytes.fromhex(req["nodeid"]), req["copy"])
                 w_swissnum = stack.swissnum
@@ -1513,6 +1543,12 @@ def migrate_step(w, rng, copy):
             "path": "-", "auth": [], "xauth": [], "body": ["n"], "sw": "ctl", "sec": "ctl", "pm": "ctl", "si": "", "n": 0}
 
 
+def expire_step(si, n, how):
+    """control entry: the upload (si, n), if there is one, times out / its client disconnects"""
+    return {"route": "@expire", "si": si, "n": n, "how": how, "method": "CTL", "path": "-", "auth": [], "xauth": [],
+            "body": ["n"], "sw": "ctl", "sec": "ctl", "pm": "ctl"}
+
+
 def enabler_battery(rng, w, si, right):
     """read-test-write requests against a slot, every one well formed but for its write enabler, then the owner's"""
     def flip(b):
@@ -1604,6 +1640,24 @@ def corpus_histories():
     reqs.append(migrate_step(w, rng, False))
     reqs += enabler_battery(rng, w, m, right)[:3] + enabler_battery(rng, w, m, right)[-3:]
     res.append(("migrated-shares", first_swissnum, reqs))
+    # --- timeouts / disconnects: the only way an upload goes away without its secret; nothing else is touched, the share
+    #     number can be allocated afresh by anybody afterwards
+    w = World(rng)
+    si = w.imm_si[0]
+    t0, t1 = w.target_of(si, 0), w.target_of(si, 1)
+    size = max(w.size[si], 2)
+    t0, t1 = (t0 * 2)[:size], (t1 * 2)[:size]
+    reqs = [legit_request(rng, w, "allocate", si, 0, ["a", [0, 1, 2], size], upload=w.upload[0]),
+            legit_request(rng, w, "write", si, 0, ["w", "bytes 0-0/*", t0[:1].hex()], upload=w.upload[0]),
+            legit_request(rng, w, "write", si, 1, ["w", "bytes 0-0/*", t1[:1].hex()], upload=w.upload[0]),
+            expire_step(si, 0, "timeout"),
+            legit_request(rng, w, "write", si, 0, ["w", "bytes 1-%d/*" % (size - 1), t0[1:].hex()], upload=w.upload[0]),   # 404
+            legit_request(rng, w, "write", si, 1, ["w", "bytes 1-%d/*" % (size - 1), t1[1:].hex()], upload=w.upload[0]),   # 201
+            expire_step(si, 2, "disconnect"), expire_step(si, 2, "timeout"), expire_step(si, 1, "timeout"),
+            legit_request(rng, w, "allocate", si, 0, ["a", [0, 2], size], upload=w.upload[1]),
+            legit_request(rng, w, "write", si, 0, ["w", "bytes 0-%d/*" % (size - 1), t0.hex()], upload=w.upload[1]),
+            legit_request(rng, w, "readImm", si, 0, ["n"]), legit_request(rng, w, "readImm", si, 1, ["n"])]
+    res.append(("upload-timeout", w.swissnum, reqs))
     # --- C30-b: a wrong write enabler on a slot that holds shares: new-only, mixed, existing, read-only
     w = World(rng)
     m = w.mut_si[0]
